@@ -1,4 +1,4 @@
-"""O2 - independent topology model read from AA.xml / NA.xml / PATCHES.xml.
+"""O2 - independent topology model read from PINNED copies of AA.xml / NA.xml / PATCHES.xml.
 
 Only xml.etree is used; none of pdb2pqr's definition classes.  The *data* files
 define the templates (trusted); the chemistry of the terminal / protonation
@@ -31,9 +31,16 @@ def _atoms(node):
     return atoms, bonds, alts
 
 
+def xml_dir() -> Path:
+    """PINNED copies of the topology XML files (taken from the repaired tree): the oracle's
+    definition of templates, atom sets and patches does not follow edits of the repository's data
+    files, so such edits show up as violations of the properties they break."""
+    return Path(__file__).resolve().parent / "data" / "dat"
+
+
 def _load():
     res = {}
-    d = dat_dir()
+    d = xml_dir()
     for fn in ("AA.xml", "NA.xml"):
         for r in ET.parse(d / fn).getroot().findall("residue"):
             name = r.findtext("name").strip()
